@@ -41,11 +41,13 @@ pub fn pipeline(c: &ChanCase) -> (String, String) {
     src.push_str(&format!("let c1: channel<{ty}> = channel()\nlet c2: channel<{ty}> = channel()\nlet ack: channel<int> = channel()\nlet done: channel<int> = channel()\n"));
     // stage task
     src.push_str(&format!("task {{\n  for i in {n} {{\n    let v = c1.read()\n"));
-    let mut dummy = proto.clone();
-    src.push_str(&dummy.mutate("v", 100, "    "));
-    src.push_str("    c2.write(v)\n");
+    // the stage passes on an object of its own heap: a mutated copy, or (immutable kinds) a re-created value
+    let mut dummy = Mv::new(c.kind, &[0], 0, "d");
+    let (fw, wv) = dummy.forward("v", 100, "    ");
+    src.push_str(&fw);
+    src.push_str(&format!("    c2.write({wv})\n"));
     if c.post_write_mutation {
-        src.push_str(&dummy.mutate("v", 200, "    "));
+        src.push_str(&dummy.mutate(&wv, 200, "    "));
     }
     src.push_str("  }\n  done.write(1)\n");
     if !c.early_finish {
@@ -62,7 +64,7 @@ pub fn pipeline(c: &ChanCase) -> (String, String) {
         if c.post_write_mutation {
             src.push_str(&m.mutate(&format!("v{i}"), 300, ""));
         }
-        received.mutate("_", 100, "");
+        received.forward("_", 100, "");
         mains.push((m, received));
     }
     if c.early_finish {
